@@ -304,6 +304,8 @@ template <class Mod>
 static void run_ps(Rng & rng, const Mod & mod, const M::Model & model, const char * kind, bool stepwise) {
     size_t S = model.getS(), A = model.getA();
     double theta = std::ldexp(1.0, -40);
+    // stepwise runs also use real thresholds: the residual bound gamma*theta*N (theorem ps_residual_bound) is then checked
+    if (stepwise && rng.coin()) theta = pickD(rng, {0.125, 0.5, 1.0, 0.0009765625, 0.03125});
     M::PrioritizedSweeping<Mod> ps(mod, theta, stepwise ? 1 : 64);
     // explicit backups: a random order over all pairs (sometimes with repeats, rarely incomplete)
     std::vector<std::pair<size_t, size_t>> order;
@@ -346,6 +348,7 @@ static void run_ps(Rng & rng, const Mod & mod, const M::Model & model, const cha
     }
     l.emit();
     std::printf("#stat ps-%s%s 1\n", kind, stepwise ? "-stepwise" : "");
+    if (theta > 1e-6) std::printf("#stat ps-positive-threshold 1\n");
 }
 
 static void case_ps(Rng & rng, const std::string & tier, int kind = -1, int stepwise = -1, int tiny = -1) {
